@@ -14,6 +14,7 @@ mod common;
 mod connlife;
 mod credit;
 mod e2e;
+mod failprop;
 mod frame;
 mod hostile;
 mod ids;
@@ -82,6 +83,7 @@ fn main() {
         "recvcredit" => recvcredit::main(&opts),
         "reasm" => reasm::main(&opts),
         "ids" => ids::main(&opts),
+        "failprop" => failprop::main(&opts),
         "hostile" => hostile::main(&opts),
         "limits" => limits::main(&opts),
         "connlife" => connlife::main(&opts),
